@@ -133,9 +133,9 @@ def force_rmtree(path):
 
 
 @contextlib.contextmanager
-def scratch_tree(spec, tag="tree"):
+def scratch_tree(spec, tag="tree", top=b"top"):
     base = scratch_dir(tag).encode()
-    root = os.path.join(base, b"top")
+    root = os.path.join(base, top)
     try:
         materialise(spec, root)
         yield root
